@@ -749,7 +749,7 @@ fn determinism_recheck(ctx: &Arc<Ctx>, gen: Gen, seed: u64, samples: &BTreeMap<u
 
 /// Run the repository's real generator binary (built by run.sh without the hook cfg, no seam, real
 /// file system, real RandomState) once; returns its stdout, or an error text.
-fn real_rerun(bin_dir: &Path, gen: Gen) -> Result<String, String> {
+fn real_rerun(bin_dir: &Path, cwd: &Path, gen: Gen) -> Result<String, String> {
     let name = match gen {
         Gen::Layout => "generate_layout",
         Gen::Likely => "generate_likelysubtags",
@@ -758,8 +758,9 @@ fn real_rerun(bin_dir: &Path, gen: Gen) -> Result<String, String> {
     if !exe.exists() {
         return Err(format!("{} not built", exe.display()));
     }
+    let started = std::time::SystemTime::now();
     let out = std::process::Command::new(&exe)
-        .current_dir(REPO_CRATE)
+        .current_dir(cwd)
         .env_clear()
         .output()
         .map_err(|e| format!("cannot run {}: {}", exe.display(), e))?;
@@ -771,7 +772,21 @@ fn real_rerun(bin_dir: &Path, gen: Gen) -> Result<String, String> {
             err.lines().next().unwrap_or("")
         ));
     }
-    Ok(String::from_utf8_lossy(&out.stdout).into_owned())
+    let text = String::from_utf8_lossy(&out.stdout).into_owned();
+    if text.trim().is_empty() {
+        // a generator that writes the table file itself: its product is that file
+        let f = cwd.join(match gen {
+            Gen::Layout => "src/layout_table.rs",
+            Gen::Likely => "src/likelysubtags/tables.rs",
+        });
+        let fresh = std::fs::metadata(&f).and_then(|m| m.modified()).map(|t| t >= started).unwrap_or(false);
+        if fresh {
+            if let Ok(t) = std::fs::read_to_string(&f) {
+                return Ok(t);
+            }
+        }
+    }
+    Ok(text)
 }
 
 fn judge_real(gen: Gen, text: &str, comp: &BTreeMap<String, Val>) -> Vec<Violation> {
@@ -1097,6 +1112,9 @@ fn cmd_check(a: &Args) -> i32 {
     // ---- fidelity cross-check: the real binaries, run for real (no seam), must print what the
     // simulated programs printed and what the tables hold
     let real_dir = a.opts.get("real-bins").map(PathBuf::from);
+    // the real processes run in a scratch copy of the repository (made by run.sh), never in /repo:
+    // whatever a generator leaves on disk must not reach the tree the checks are judged on
+    let real_cwd = PathBuf::from(a.opts.get("real-cwd").cloned().unwrap_or_else(|| REPO_CRATE.to_string()));
     let real_n = opt_u64(a, "real-runs", if tier == "quick" { 2 } else { 12 });
     let mut real_done = 0u64;
     let mut real_viol: Vec<(Gen, Violation, String)> = vec![];
@@ -1105,7 +1123,7 @@ fn cmd_check(a: &Args) -> i32 {
         real_note = String::from("ok");
         'outer: for gen in [Gen::Layout, Gen::Likely] {
             for _ in 0..real_n {
-                match real_rerun(dir, gen) {
+                match real_rerun(dir, &real_cwd, gen) {
                     Ok(text) => {
                         real_done += 1;
                         let vs = judge_real(gen, &text, &ctx.comp);
@@ -1299,7 +1317,7 @@ fn cmd_check(a: &Args) -> i32 {
             known_lines.push(format!("KNOWN-FINDING: property={} {} ({})", PROPERTY, v.signature, what));
             continue;
         }
-        let p = write_replay(&replay_dir, &ctx, "real", Some(*gen), seed, None, &tier, v, &[], json!({"real_bins": real_dir.as_ref().map(|d| d.display().to_string())}));
+        let p = write_replay(&replay_dir, &ctx, "real", Some(*gen), seed, None, &tier, v, &[], json!({"real_bins": real_dir.as_ref().map(|d| d.display().to_string()), "real_cwd": real_cwd.display().to_string()}));
         reported.push((v.clone(), p));
     }
     // verify each replay file in a fresh process
@@ -1741,10 +1759,11 @@ fn cmd_replay(a: &Args) -> i32 {
         Some("real") => {
             let gen = Gen::parse(j["generator"].as_str().unwrap_or("")).unwrap_or_else(|| harness_error("replay file: bad generator"));
             let dir = PathBuf::from(j["minimisation"]["real_bins"].as_str().unwrap_or("/verif/gensim/target/realbins/debug"));
+            let cwd = PathBuf::from(j["minimisation"]["real_cwd"].as_str().unwrap_or("/verif/gensim/target/realws/unic-langid-impl"));
             // a real process is not under the simulator's control: try a number of times
             let mut found = vec![];
             for _ in 0..32 {
-                match real_rerun(&dir, gen) {
+                match real_rerun(&dir, &cwd, gen) {
                     Ok(text) => {
                         found = judge_real(gen, &text, &comp);
                         if !found.is_empty() {
